@@ -42,6 +42,18 @@ FINITE_PARTS = (
     "alloc::collections::btree::map::Iter<", "alloc::collections::vec_deque::iter::Iter<", "core::slice::iter::Chunks<",
     "core::slice::iter::Windows<", "core::option::IntoIter<", "core::option::Iter<", "core::iter::adapters::skip_while::SkipWhile<",
     "core::iter::adapters::take_while::TakeWhile<", "core::iter::adapters::inspect::Inspect<", "core::slice::iter::ChunksExact<",
+    # further finite standard iterators (sources of at most one element, adaptors that never lengthen, collection iterators)
+    "core::iter::sources::once::Once<", "core::iter::sources::empty::Empty<", "core::iter::sources::once_with::OnceWith<",
+    "core::iter::adapters::fuse::Fuse<", "core::iter::adapters::map_while::MapWhile<", "core::iter::adapters::scan::Scan<",
+    "core::iter::adapters::by_ref_sized::ByRefSized<", "core::result::IntoIter<", "core::result::Iter<",
+    "core::slice::iter::RChunks<", "core::slice::iter::Split<", "core::slice::iter::ChunksMut<", "core::slice::iter::ChunksExactMut<",
+    "core::str::iter::SplitN<", "core::str::iter::RSplit<", "core::str::iter::SplitTerminator<", "core::str::iter::SplitAsciiWhitespace<",
+    "core::str::iter::RSplitN<", "core::str::iter::Matches<", "core::str::iter::MatchIndices<", "core::str::iter::SplitInclusive<",
+    "alloc::string::Drain<", "alloc::collections::vec_deque::iter_mut::IterMut<", "alloc::collections::vec_deque::into_iter::IntoIter<",
+    "alloc::collections::vec_deque::drain::Drain<", "alloc::collections::btree::map::IterMut<", "alloc::collections::btree::map::Values<",
+    "alloc::collections::btree::map::Keys<", "alloc::collections::btree::map::IntoIter<", "alloc::collections::btree::set::Iter<",
+    "alloc::collections::btree::set::IntoIter<", "std::collections::hash::map::Drain<", "std::collections::hash::map::IntoKeys<",
+    "std::collections::hash::map::IntoValues<", "std::collections::hash::set::Drain<", "arraydeque::IntoIter<",
 )
 UNBOUNDED = ("RangeFrom<", "Repeat<", "Cycle<", "RepeatWith<", "FromFn<", "Successors<", "RepeatN<")
 
